@@ -38,7 +38,10 @@ class EpsilonSelector:
 
         # now check if the desired success rate is within 2-sigma
         if ~(mu - 2 * std < self.accept_rate < mu + 2 * std):
-            adj = (log(self.accept_rate) / log(mu)) ** 0.15
+            if mu < 1.0:
+                adj = (log(self.accept_rate) / log(mu)) ** 0.15
+            else:  # every proposal was accepted with certainty - use the largest increase
+                adj = 2.0
             adj = min(adj, 2.0)
             adj = max(adj, 0.5)
             self.adjust_epsilon(adj)
